@@ -176,6 +176,103 @@ func c08(r *core.Report, p *core.Prog, thorough bool) {
 	}
 	r.Floor("C08.msgp", "msgp-generated struct codecs", nTypes, 60)
 
+	// ---------------- (A') hand-written codecs that go through a decode alias
+	r.Rule("C08.wrapper-codec", "a hand-written UnmarshalMsg that decodes into an alias type D of its own struct copies every field D's codec encodes back into the receiver (whole-value conversion, or one store per field fed from the decoded value)")
+	nWrap := 0
+	for _, fn := range p.ModFuncs() {
+		if fn.Name() != "UnmarshalMsg" || fn.Signature.Recv() == nil || fn.Blocks == nil || fn.Parent() != nil || !p.InNode(fn) {
+			continue
+		}
+		if strings.HasSuffix(p.Fset.Position(fn.Pos()).Filename, "_gen.go") {
+			continue
+		}
+		rpt, ok := fn.Signature.Recv().Type().(*types.Pointer)
+		if !ok {
+			continue
+		}
+		T, ok := rpt.Elem().(*types.Named)
+		if !ok {
+			continue
+		}
+		tst, ok := T.Underlying().(*types.Struct)
+		if !ok {
+			continue
+		}
+		// the alias object: an Alloc of a different named type with the identical struct, decoded by its own UnmarshalMsg
+		var d *ssa.Alloc
+		var D *types.Named
+		for _, b := range fn.Blocks {
+			for _, in := range b.Instrs {
+				c, ok := in.(*ssa.Call)
+				if !ok || c.Common().StaticCallee() == nil || c.Common().StaticCallee().Name() != "UnmarshalMsg" || len(c.Call.Args) == 0 {
+					continue
+				}
+				al, ok := c.Call.Args[0].(*ssa.Alloc)
+				if !ok {
+					continue
+				}
+				dn, ok := al.Type().(*types.Pointer).Elem().(*types.Named)
+				if !ok || dn == T || !types.Identical(dn.Underlying(), tst) {
+					continue
+				}
+				d, D = al, dn
+			}
+		}
+		if d == nil {
+			continue
+		}
+		nWrap++
+		key := "wrapper:" + T.Obj().Pkg().Path() + "." + T.Obj().Name()
+		dm := p.Func("(*" + D.Obj().Pkg().Path() + "." + D.Obj().Name() + ").MarshalMsg")
+		if dm == nil {
+			r.Unresolved("C08.wrapper-codec", key+": MarshalMsg of "+D.Obj().Name())
+			continue
+		}
+		encoded := recvFieldsTouched(dm)
+		// whole-value copy?
+		whole := false
+		restored := map[string]bool{}
+		for _, b := range fn.Blocks {
+			for _, in := range b.Instrs {
+				st, ok := in.(*ssa.Store)
+				if !ok {
+					continue
+				}
+				if st.Addr == ssa.Value(fn.Params[0]) {
+					v := st.Val
+					if ct, ok := v.(*ssa.ChangeType); ok {
+						v = ct.X
+					}
+					if ld, ok := v.(*ssa.UnOp); ok && ld.X == ssa.Value(d) {
+						whole = true
+					}
+				}
+				if fa, ok := st.Addr.(*ssa.FieldAddr); ok && fa.X == ssa.Value(fn.Params[0]) && core.FieldOf(fa) != nil {
+					// fed from the same field of d
+					fs, _ := FlowLoads(st.Val)
+					name := core.FieldOf(fa).Name()
+					for k := range fs {
+						if strings.HasSuffix(k, "."+name) {
+							restored[name] = true
+						}
+					}
+				}
+			}
+		}
+		var missing []string
+		if !whole {
+			for f := range encoded {
+				if !restored[f.Name()] {
+					missing = append(missing, f.Name())
+				}
+			}
+		}
+		sort.Strings(missing)
+		_ = tst
+		r.Check(len(missing) == 0, "C08.wrapper-codec", key, p.Pos(fn.Pos()), fmt.Sprintf("decoded through %s (%d encoded fields); encoded but never copied back into the receiver: %v", D.Obj().Name(), len(encoded), missing))
+	}
+	r.Floor("C08.wrapper-codec", "hand-written codecs using a decode alias", nWrap, 2)
+
 	// ---------------- (B) state.State
 	enc := p.Func("(*" + pkgState + ".State).Encode")
 	dec := p.Func("(*" + pkgState + ".State).Decode")
